@@ -933,9 +933,13 @@ ERR_REASONS = {400: "Bad Request", 401: "Unauthorized", 403: "Forbidden", 404: "
                500: "Internal Server Error", 503: "Service Unavailable"}
 
 
-def gen_appspec(rng, rid, shapes=APP_SHAPES, statuses=None, maxbody=60):
+def gen_appspec(rng, rid, shapes=APP_SHAPES, statuses=None, maxbody=60, bodiless=None):
+    """bodiless: "HEAD" when the spec answers a HEAD request, True for a status without a body: such a response may
+    still carry the Content-Length of the entity it stands for"""
+    import zlib
     shape = rng.choice(shapes)
     spec = {"shape": shape, "id": rid}
+    variant = zlib.crc32(("%s/%s" % (rid, shape)).encode())       # decides the variants added later (no draw from rng)
     hdrs = [("X-Vf-Id", rid)]
     seen = {"x-vf-id"}
     for _ in range(rng.choice([0, 1, 2])):
@@ -961,6 +965,12 @@ def gen_appspec(rng, rid, shapes=APP_SHAPES, statuses=None, maxbody=60):
                     err_title=rng.choice(["", "Validation Error", "té"]), err_detail=rng.choice(["", "Bad mojo", "x\ny"]),
                     err_fault=rng.choice([None, 0, 50]),
                     err_headers=[("X-Err", header_value(rng) or "e")] if rng.random() < 0.5 else [])
+        if variant % 3 == 0:
+            # the error brings its own content type, spelled the usual way (capitals)
+            spec["err_headers"] = spec["err_headers"] + [(["Content-Type", "content-type", "CONTENT-TYPE"][variant // 3 % 3],
+                                                          "application/problem+text")]
+        if shape == "error-after" and variant % 2 == 1:
+            spec["crash"] = True            # the body generator fails with an ordinary exception, not an HTTPError
     if shape in ("empty", "empty-cl0"):
         body, pieces = b"", []
     if shape == "error-after" and not pieces:
@@ -976,6 +986,8 @@ def gen_appspec(rng, rid, shapes=APP_SHAPES, statuses=None, maxbody=60):
     if rng.random() < 0.15:
         reason = rng.choice(["Fine", "all good here", "Not-Quite (yet)"])
     spec.update(status=status, reason=reason, pieces=pieces, tail=tail)
+    if shape == "empty-cl0" and (bodiless == "HEAD" or (bodiless and status == 304)) and variant % 2 == 0:
+        spec["declared_length"] = 1 + variant // 2 % 40      # the length of the entity the bodiless response stands for
     # ---- what the client must see
     if shape in ("error-before", "error-lazy"):
         rendered = "{} {}\n{}\n{}\n{}".format(spec["err_status"], spec["err_reason"], spec["err_title"], spec["err_detail"],
@@ -987,7 +999,7 @@ def gen_appspec(rng, rid, shapes=APP_SHAPES, statuses=None, maxbody=60):
     else:
         exp_headers = dict((k.lower(), v) for k, v in hdrs)
         if shape in ("fixed", "fixed-pieces", "empty-cl0"):
-            exp_headers["content-length"] = str(len(body))
+            exp_headers["content-length"] = str(spec.get("declared_length", len(body)))
         spec["expect"] = {"status": status, "reason": reason, "headers": exp_headers, "body": body + tail}
     return spec
 
@@ -1019,7 +1031,7 @@ def make_app(specfor, seen):
         if shape == "error-before":
             raise error()
         if shape in ("fixed", "fixed-pieces", "empty-cl0"):
-            hdrs.append(("Content-Length", str(sum(len(p) for p in spec["pieces"]))))
+            hdrs.append(("Content-Length", str(spec.get("declared_length", sum(len(p) for p in spec["pieces"])))))
             start_response(status, hdrs)
             if shape == "fixed":
                 return [b"".join(spec["pieces"])]
@@ -1043,7 +1055,11 @@ def make_app(specfor, seen):
                 if shape == "stream-gaps":
                     yield b""
                 yield p
+            if spec.get("crash_end"):
+                raise RuntimeError("application failed at the end of its stream")
             if shape == "error-after":
+                if spec.get("crash"):
+                    raise RuntimeError("application failed while streaming")
                 raise error()
             if shape == "genreturn":
                 return spec["tail"]
